@@ -150,6 +150,9 @@ struct UnitCfg {
     str_slices: Vec<String>, // R15: identifiers whose `&X[a..b]` is a string slice
     try_conv: bool,          // R17: desugar `e?` into match + `.into()`
     try_poll: bool,          // R17b: the fn returns Poll<Result<..>>
+    /// parameter and local names of the function, in declaration order, as recorded when the
+    /// contract was last baselined (rule A1: annotations follow pure renames)
+    locals_base: Vec<String>,
 }
 
 struct Cfg {
@@ -173,6 +176,57 @@ struct Cfg {
     vacuity_probe: bool,
 }
 
+/// A1: parameter names, then `let` / `for` / `if let` / match-arm bound names, in source order
+fn fn_locals(sig: &Signature, block: Option<&Block>) -> Vec<String> {
+    struct L {
+        out: Vec<String>,
+    }
+    impl<'ast> Visit<'ast> for L {
+        fn visit_pat_ident(&mut self, p: &'ast PatIdent) {
+            self.out.push(p.ident.to_string());
+            visit::visit_pat_ident(self, p);
+        }
+        fn visit_item(&mut self, _i: &'ast Item) {}
+    }
+    let mut l = L { out: vec![] };
+    for inp in sig.inputs.iter() {
+        if let FnArg::Typed(pt) = inp {
+            l.visit_pat(&pt.pat);
+        }
+    }
+    if let Some(b) = block {
+        l.visit_block(b);
+    }
+    l.out
+}
+
+/// simultaneous renaming of identifiers in annotation text (not after `.`, not before `::`)
+fn subst_idents(text: &str, map: &HashMap<String, String>) -> String {
+    let b: Vec<char> = text.chars().collect();
+    let mut out = String::new();
+    let mut i = 0;
+    while i < b.len() {
+        let c = b[i];
+        if c.is_alphabetic() || c == '_' {
+            let st = i;
+            while i < b.len() && (b[i].is_alphanumeric() || b[i] == '_') {
+                i += 1;
+            }
+            let w: String = b[st..i].iter().collect();
+            let prev_dot = st > 0 && b[st - 1] == '.' && !(st > 1 && b[st - 2] == '.');
+            let next_path = i + 1 < b.len() && b[i] == ':' && b[i + 1] == ':';
+            match map.get(&w) {
+                Some(n) if !prev_dot && !next_path => out.push_str(n),
+                _ => out.push_str(&w),
+            }
+        } else {
+            out.push(c);
+            i += 1;
+        }
+    }
+    out
+}
+
 fn jstr(v: &Value, k: &str) -> String {
     v.get(k).and_then(|x| x.as_str()).unwrap_or("").to_string()
 }
@@ -193,6 +247,7 @@ fn unit_from(v: &Value) -> UnitCfg {
     u.keep_generics = v.get("keep_generics").and_then(|x| x.as_bool()).unwrap_or(false);
     u.drop_body = v.get("drop_body").and_then(|x| x.as_bool()).unwrap_or(false);
     u.try_conv = v.get("try_conv").and_then(|x| x.as_bool()).unwrap_or(false);
+    u.locals_base = v.get("locals").and_then(|x| x.as_array()).map(|a| a.iter().map(|x| x.as_str().unwrap_or("").to_string()).collect()).unwrap_or_default();
     let bare = v.get("bare").and_then(|x| x.as_bool()).unwrap_or(false);
     if let Some(a) = v.get("str_slices").and_then(|x| x.as_array()) {
         u.str_slices = a.iter().map(|x| x.as_str().unwrap_or("").to_string()).collect();
@@ -237,6 +292,8 @@ struct FileCtx<'a> {
     /// field name -> declared type text, for the structs of this file (used to tell a
     /// `Vec::set_len` from a `File::set_len` when a method effect is name-directed)
     field_types: HashMap<String, String>,
+    /// unit id -> parameter / local names in declaration order (rule A1)
+    locals_out: BTreeMap<String, Vec<String>>,
 }
 
 impl<'a> FileCtx<'a> {
@@ -1369,6 +1426,66 @@ fn process_fn(
     outer_name: &str,
     in_trait_decl: bool,
 ) {
+    // A1: annotations follow pure renames of parameters / locals (same number of bindings in
+    // the same order, different names)
+    let now = fn_locals(sig, block);
+    fc.locals_out.insert(u.id.clone(), now.clone());
+    let renamed: UnitCfg;
+    let u: &UnitCfg = if !u.locals_base.is_empty() && u.locals_base.len() == now.len() && u.locals_base != now {
+        let mut map: HashMap<String, String> = HashMap::new();
+        let mut consistent = true;
+        for (a, b) in u.locals_base.iter().zip(now.iter()) {
+            // only genuine renames: the old name is gone and the new name is new (a mere
+            // reordering of bindings keeps every name and needs no substitution)
+            if a != b && !now.contains(a) && !u.locals_base.contains(b) {
+                if let Some(prev) = map.get(a) {
+                    if prev != b {
+                        consistent = false;
+                    }
+                }
+                map.insert(a.clone(), b.clone());
+            }
+        }
+        // a name that is kept somewhere and renamed elsewhere is ambiguous: leave the text alone
+        for (a, b) in u.locals_base.iter().zip(now.iter()) {
+            if a == b && map.contains_key(a) {
+                consistent = false;
+            }
+        }
+        if consistent && !map.is_empty() {
+            let mut r = u.clone();
+            r.sig_contract = subst_idents(&r.sig_contract, &map);
+            r.body_open = subst_idents(&r.body_open, &map);
+            r.loops = r.loops.iter().map(|(k, v)| (*k, subst_idents(v, &map))).collect();
+            r.str_slices = r.str_slices.iter().map(|x| map.get(x).cloned().unwrap_or(x.clone())).collect();
+            r.hints = r.hints.iter().map(|h| {
+                let mut h2 = h.clone();
+                if let Some(t) = h.get("text").and_then(|x| x.as_str()) {
+                    h2["text"] = Value::String(subst_idents(t, &map));
+                }
+                h2
+            }).collect();
+            let fix_closure = |v: &Value| -> Value {
+                let mut v2 = v.clone();
+                if let Some(t) = v.get("contract").and_then(|x| x.as_str()) {
+                    v2["contract"] = Value::String(subst_idents(t, &map));
+                }
+                v2
+            };
+            r.closures = r.closures.iter().map(|(k, v)| (*k, fix_closure(v))).collect();
+            r.closures_by_text = r.closures_by_text.iter().map(|(k, v)| (k.clone(), fix_closure(v))).collect();
+            let mut pairs: Vec<String> = map.iter().map(|(a, b)| format!("{a}->{b}")).collect();
+            pairs.sort();
+            *fc.rule_counts.entry("A1.rename".to_string()).or_insert(0) += 1;
+            fc.warnings.push(format!("unit {}: annotations follow renamed bindings: {}", u.id, pairs.join(", ")));
+            renamed = r;
+            &renamed
+        } else {
+            u
+        }
+    } else {
+        u
+    };
     fc.strip_attrs(attrs);
     if !u.attrs.is_empty() {
         let start = if let Some(a) = attrs.first() { range_of(a).0 } else { range_of(sig).0 };
@@ -2238,7 +2355,7 @@ fn main() {
                 }
             }
         }
-        let mut fc = FileCtx { cfg: &cfg, src: &src, edits: vec![], rule_counts: BTreeMap::new(), errors: vec![], warnings: vec![], degraded: vec![], extra_eff: extra_eff.clone(), fname: fname.clone(), ro_violations: vec![], field_types: field_types.clone() };
+        let mut fc = FileCtx { cfg: &cfg, src: &src, edits: vec![], rule_counts: BTreeMap::new(), errors: vec![], warnings: vec![], degraded: vec![], extra_eff: extra_eff.clone(), fname: fname.clone(), ro_violations: vec![], field_types: field_types.clone(), locals_out: BTreeMap::new() };
         // segments to keep: (start, end, kind, name)
         let mut segs: Vec<(usize, usize, String, String)> = vec![];
         let mut found_units: HashSet<String> = HashSet::new();
@@ -2601,7 +2718,7 @@ fn main() {
         out_files.insert(
             fname.clone(),
             json!({ "segments": rendered, "dropped": dropped, "warnings": fc.warnings, "degraded": fc.degraded,
-                    "auto_units": auto_names, "auto_items": auto_items, "ro_violations": fc.ro_violations, "missing_units": missing_units, "lifted": lift_log, "lift_missing": lift_missing }),
+                    "auto_units": auto_names, "auto_items": auto_items, "ro_violations": fc.ro_violations, "missing_units": missing_units, "lifted": lift_log, "lift_missing": lift_missing, "locals": fc.locals_out }),
         );
     }
     let out = json!({ "files": out_files, "errors": all_errors, "rule_counts": total_rules });
